@@ -14,6 +14,8 @@ pub mod front;
 pub mod c13;
 pub mod c15;
 pub mod c16;
+pub mod c17;
+pub mod c18;
 pub mod c19;
 pub mod c20;
 
@@ -70,6 +72,8 @@ pub fn run(id: &str, tier: Tier, seed: u64) -> Option<Report> {
         "C13" => c13::run(tier, seed),
         "C15" => c15::run(tier, seed),
         "C16" => c16::run(tier, seed),
+        "C17" => c17::run(tier, seed),
+        "C18" => c18::run(tier, seed),
         "C19" => c19::run(tier, seed),
         "C20" => c20::run(tier, seed),
         _ => return None,
@@ -93,6 +97,8 @@ pub fn replay(id: &str, phase: &str, tape: &[u16], seed: u64) -> Option<Report> 
         "C13" => c13::replay(phase, tape, seed),
         "C15" => c15::replay(phase, tape, seed),
         "C16" => c16::replay(phase, tape, seed),
+        "C17" => c17::replay(phase, tape, seed),
+        "C18" => c18::replay(phase, tape, seed),
         "C19" => c19::replay(phase, tape, seed),
         "C20" => c20::replay(phase, tape, seed),
         _ => return None,
